@@ -11,13 +11,20 @@ import (
 // C02 — the text reader decodes every valid spelling of a value to exactly that value.
 func c02Body(c *mc.Ctx) {
 	var d doc
-	switch c.Pick("source", 3) {
+	boundary := false
+	switch c.Pick("source", 4) {
 	case 0:
 		docs := corpus("full")
 		d = docs[c.Shard("doc", len(docs))]
 	case 1:
 		docs := corpus("reps")
 		d = docs[c.Shard("doc", len(docs))]
+	case 3:
+		// the representatives again, shifted so that the Reader's internal 4096-byte buffer ends
+		// at every offset of the text in turn (lookahead must not depend on what is buffered)
+		docs := corpus("reps")
+		d = docs[c.Shard("doc", len(docs))]
+		boundary = true
 	default:
 		vals, class := genValues(c, c.Tier == "thorough")
 		d = doc{class, vals}
@@ -27,6 +34,9 @@ func c02Body(c *mc.Ctx) {
 		return
 	}
 	text := reftext.Print(c, d.vals)
+	if boundary {
+		text = padToBoundary(c, text, ' ')
+	}
 	c.Case(func() string { return fmt.Sprintf("text=%q", clipBytes(text, 300)) })
 	c.Class(d.name)
 	got, calls, err, pan := readBack(text, nil)
@@ -42,8 +52,33 @@ func c02Body(c *mc.Ctx) {
 		c.Fail("value-mismatch", diffKey(df), "text denotes %s, reader returned %s: %s", rm.StreamString(d.vals), rm.StreamString(got), df)
 		return
 	}
-	c.Observe(string(clipBytes(text, 64)), len(text))
+	if boundary {
+		c.Observe(string(text[len(text)-min(len(text), 64):]), len(text))
+	} else {
+		c.Observe(string(clipBytes(text, 64)), len(text))
+	}
 	c.Nontrivial()
+}
+
+// bufioSize is the size of the buffer the Reader puts around its input.
+const bufioSize = 4096
+
+// padToBoundary prefixes data with filler so that the first buffer fill ends after k bytes of
+// data, for a chosen k in 1..min(len(data)-1, 48).
+func padToBoundary(c *mc.Ctx, data []byte, filler byte) []byte {
+	n := len(data) - 1
+	if n > 48 {
+		n = 48
+	}
+	if n < 1 {
+		return data
+	}
+	k := 1 + c.Pick("buffer-ends-after", n)
+	out := make([]byte, 0, bufioSize+len(data))
+	for i := 0; i < bufioSize-k; i++ {
+		out = append(out, filler)
+	}
+	return append(out, data...)
 }
 
 func init() {
@@ -52,6 +87,7 @@ func init() {
 		Title: "The text reader decodes every valid spelling of a value to exactly that value",
 		Rule: "every document of the corpus and of the C01 value-sequence generator x every rendering the independent spec-derived printer produces with at most d deviations from the canonical spelling; a deviation is one non-default choice at one token: " +
 			"inter-token trivia (space, LF, CRLF, lone CR, tab, /*c*/, a block comment holding a CR, //c ended by LF / CR / CRLF, VT, FF) at every gap, null.null, int radix (0x/0X/0b) and underscore, decimal D/+/positional forms, float E/+ forms, timestamp Z vs +00:00 and trailing T, string short/long/split-long forms with each escape style (\\xHH, \\uHHHH, \\UHHHHHHHH, surrogate pair) raw line breaks in long strings as LF / CRLF / CR, and line continuation by backslash + LF / CRLF / CR in every string form, symbol bare/quoted/operator forms, field names as symbol/string/long string, blob inner whitespace, clob short/long/split with raw LF / CRLF / CR line breaks in the long forms, trailing commas. " +
+			"Fourth layer: every representative document in every such rendering, prefixed with blanks so that the Reader's 4096-byte buffer ends after each of the first 48 bytes of the text in turn. " +
 			"non-trivial = the real Reader's full traversal was compared value-by-value with the model; distinct = distinct (document, text) digests",
 		Bounds:      map[string]string{"quick": "d<=1", "thorough": "d<=2"},
 		Assumptions: []string{"reftext printer (cross-checked against the reftext parser by its own tests and selfcheck) and refmodel equality are the trusted reference"},
